@@ -1,8 +1,12 @@
 //! C19 -- configuration swarm over World A (codec half) and World D (session half).
 
 use crate::engine::{Ctx, RunResult};
-use crate::worlds::a;
+use crate::worlds::{a, d};
 
 pub fn run(ctx: &mut Ctx) -> RunResult {
-    a::run(ctx, a::AMode::C19)
+    if ctx.ch.chance("cfg.world", 1, 2) {
+        d::run(ctx, d::DMode::C19)
+    } else {
+        a::run(ctx, a::AMode::C19)
+    }
 }
